@@ -167,6 +167,11 @@ impl TryDecode for DisconnectRx {
             return Err(InvalidPacketSize.into());
         }
 
+        // When remaining length is 0, the Reason is 0x00 (Normal disconnection) and there are no properties.
+        if remaining_len.value() == 0 {
+            return builder.build();
+        }
+
         let reason = decoder.try_decode::<DisconnectReason>()?;
         builder.reason(reason);
 
